@@ -13,7 +13,8 @@
 //! Every judged physical key has its own output alphabet (letters, two modifiers, override
 //! outputs), so attribution never depends on kanata's tables.
 //!
-//! Overrides (`defoverrides`) stay inside one alphabet but are otherwise unrestricted: the input key
+//! Overrides (`defoverrides`) stay inside one alphabet (except for the "foreign" outputs z and x
+//! described below) but are otherwise unrestricted: the input key
 //! is mostly one the cells of the judged key really list, the output is a private override key or
 //! another LETTER of the alphabet (a key cells list themselves, and possibly the input of another
 //! override), the input modifier is one of the alphabet's two modifiers (held by the cell itself) or
@@ -27,8 +28,34 @@
 //! (`C14:repeat-dropped:override-output-down`), reached through a chain
 //! (`C14:repeat-dropped:chained-override-output-down`), anything else (`C14:repeat-dropped`).
 //!
-//! Known classes of the unchanged tree are bounded structurally: `defsrc-fallback+override` only when
-//! the effective cell is transparent, the defsrc key itself is the input of an override and nothing but
+//! Chords v2: 2-4 chords over the three judged keys ((q w) (w e) (q e) (q w e), each with its own
+//! output key) in random definition order, so every judged key of such a configuration takes part in
+//! two or more chords; 3 of 4 configurations give every chord a random disabled-layers list. The
+//! oracle is unchanged (whatever chord output the OS model shows down and attributable to the press must
+//! be repeated); the counters `judged_with_v2_chord_output_down_*` record what precedes the held chord
+//! in the definition order: another chord of the repeated key that is disabled on the active layer /
+//! on every layer the repeat lookup consults, and whether the repeated key was the one pressed last.
+//! A dropped repeat with nothing but v2 chord outputs attributed is `C14:repeat-dropped:chords-v2-output-down`.
+//!
+//! The defsrc fallback with overrides: 1 of 5 override configurations make one judged key transparent on
+//! the base layer (2 of 3: on every layer) and put 1-3 overrides on its defsrc key; independently, every
+//! random override has 1 chance in 12 to keep its key and only change modifiers (`(lctl q) (lsft q)`,
+//! `(lctl q) (q)`) and 1 in 6 to output z or x, keys that a context key holds down by itself ("foreign"
+//! output: the override output can be down because ANOTHER physical key holds it). "At most one output
+//! per Repeat" is judged on the raw output stream of the Repeat event (every write, before any
+//! filtering), always. A forwarded key outside the attributed set is judged as before, except that a
+//! foreign override output is only judged when the input key of every override (on a key of the repeated
+//! key's alphabet) with that output is down at the OS: an active override replaces its input key, so
+//! then none of them is active and only the other physical key can be what holds the forwarded key.
+//!
+//! Known classes of the unchanged tree are bounded structurally: `repeat-of-foreign-key:inactive-override-
+//! output-held-by-other-key` only when the effective cell is NOT transparent (layer-table path), lists
+//! the input key of such a demonstrably inactive override and the forwarded key is its foreign output
+//! (for a transparent cell - the defsrc fallback - the same observation is the live class
+//! `C14:repeat-of-foreign-key`); `repeat-of-up-key:modifier-released-by-visible-backspaced-completion-
+//! in-the-same-tick` only in visible-backspaced mode, after the sequence ended, for ctrl/alt/meta whose
+//! release at the OS is among the outputs of the last tick before the Repeat event (same millisecond). Classes that were known before the repairs and are live now:
+//! `defsrc-fallback+override` only when the effective cell is transparent, the defsrc key itself is the input of an override and nothing but
 //! outputs of overrides on it (and modifiers) is attributed; `repeat-of-up-key:unmod+override` only when
 //! the key that is up is the input or output key of an override;
 //! `defsrc-fallback+override-modifier-stripped-by-unmod` only for a transparent cell, an unmod key
@@ -59,11 +86,17 @@ const ALPH: [Alph; 3] = [
     Alph { phys: "w", letters: &["w", "h", "j", "k", "l", "n"], mods: &["rsft", "rctl"], ov: &["3", "4"] },
     Alph { phys: "e", letters: &["e", "u", "i", "o", "p", "y"], mods: &["lalt", "ralt"], ov: &["5", "6"] },
 ];
-/// outputs of two-key chords (v1 and v2), shared by the participants
-const CHORD_POOL: [[&str; 2]; 2] = [["7", "8"], ["9", "0"]];
+/// outputs of the two-key chords of the chords-v1 group, shared by the participants
+const CHORD_POOL_V1: [&str; 2] = ["7", "9"];
+/// chords v2: participant sets over the three judged keys (indices into ALPH) and the key the chord
+/// outputs; every judged key takes part in three of the four sets
+const V2_SETS: [(&[usize], &str); 4] = [(&[0, 1], "8"), (&[1, 2], "0"), (&[0, 2], "b"), (&[0, 1, 2], "c")];
 const CTX_Z: &str = "z";
 const CTX_X: &str = "x";
 const CTX_MOD: &str = "lmet";
+/// keys that a context key puts down by itself; an override on a judged key may output one of them
+/// ("foreign" override output: a key that ANOTHER physical key can hold down)
+const FOREIGN: [&str; 2] = [CTX_Z, CTX_X];
 const LAYER_KEYS: [&str; 2] = ["f1", "f2"];
 const SWITCH_KEYS: [&str; 2] = ["f3", "f4"];
 const LEADER: &str = "f5";
@@ -278,8 +311,27 @@ impl<'a> ActGen<'a> {
     }
 }
 
+/// one `defchordsv2` entry, in definition order
+#[derive(Clone)]
+struct V2Chord {
+    /// participants (indices into ALPH)
+    keys: Vec<usize>,
+    out: &'static str,
+    /// layers on which the chord is disabled
+    disabled: Vec<usize>,
+}
+
 struct Cfg {
     text: String,
+    /// chords v2 in definition order
+    v2: Vec<V2Chord>,
+    /// "fall-through focus": this judged key is transparent on the base layer (mostly on every layer)
+    /// and its defsrc key is the input of the first overrides
+    focus: Option<usize>,
+    /// some override keeps its key and only changes modifiers (output key == input key)
+    ov_same_key: bool,
+    /// some override outputs a key of FOREIGN
+    ov_foreign_out: bool,
     n_layers: usize,
     /// cells[layer][key]
     cells: Vec<Vec<CellInfo>>,
@@ -341,6 +393,24 @@ fn make_cfg(rng: &mut Rng, systematic: Option<usize>) -> Cfg {
         }
         cells.push(row);
     }
+    // fall-through focus (1 of 5 override configurations): one judged key is transparent on the base
+    // layer and, 2 of 3, on every layer (else on each further layer with probability 1/2), so that its
+    // repeats are resolved by the defsrc fallback; the first overrides then take its defsrc key as input
+    let mut focus: Option<usize> = None;
+    if has_overrides && !chords_v1 && rng.chance(1, 5) {
+        let ki = rng.usize(3);
+        let all = rng.chance(2, 3);
+        for layer in 0..n_layers {
+            if all || layer == 0 || rng.coin() {
+                let mut info = CellInfo::default();
+                info.forms.insert("transparent");
+                info.transparent = true;
+                info.text = "_".to_string();
+                cells[layer][ki] = info;
+            }
+        }
+        focus = Some(ki);
+    }
     // chord group / chords v2 definitions
     let mut extra = String::new();
     let mut chord_infos: Vec<CellInfo> = vec![];
@@ -354,18 +424,32 @@ fn make_cfg(rng: &mut Rng, systematic: Option<usize>) -> Cfg {
             chord_texts.push(act.clone());
             s.push_str(&format!(" (k{ki}) {act}"));
         }
-        s.push_str(&format!(" (k0 k1) {} (k1 k2) {}", CHORD_POOL[0][0], CHORD_POOL[1][0]));
+        s.push_str(&format!(" (k0 k1) {} (k1 k2) {}", CHORD_POOL_V1[0], CHORD_POOL_V1[1]));
         s.push_str(")\n");
         extra.push_str(&s);
     }
+    let mut v2: Vec<V2Chord> = vec![];
     if chords_v2 {
-        extra.push_str(&format!(
-            "(defchordsv2\n  (q w) {} {t} {} ()\n  (w e) {} {t} {} ()\n)\n",
-            CHORD_POOL[0][1],
-            if rng.coin() { "all-released" } else { "first-release" },
-            CHORD_POOL[1][1],
-            if rng.coin() { "all-released" } else { "first-release" }
-        ));
+        // 2-4 chords over the judged keys in random definition order (any two of them share a key),
+        // 3 of 4 configurations with random disabled-layers lists
+        let mut sets: Vec<usize> = (0..V2_SETS.len()).collect();
+        rng.shuffle(&mut sets);
+        let n = 2 + rng.usize(3);
+        let with_disabled = rng.chance(3, 4);
+        let mut s = String::from("(defchordsv2\n");
+        for si in sets.into_iter().take(n) {
+            let (keys, o) = V2_SETS[si];
+            let disabled: Vec<usize> = if with_disabled { (0..n_layers).filter(|_| rng.chance(1, 3)).collect() } else { vec![] };
+            s.push_str(&format!(
+                "  ({}) {o} {t} {} ({})\n",
+                keys.iter().map(|k| ALPH[*k].phys).collect::<Vec<_>>().join(" "),
+                if rng.coin() { "all-released" } else { "first-release" },
+                disabled.iter().map(|l| format!("l{l}")).collect::<Vec<_>>().join(" ")
+            ));
+            v2.push(V2Chord { keys: keys.to_vec(), out: o, disabled });
+        }
+        s.push_str(")\n");
+        extra.push_str(&s);
     }
     // chord-v1 cells put down what the key's own group action lists
     if chords_v1 {
@@ -420,6 +504,25 @@ fn make_cfg(rng: &mut Rng, systematic: Option<usize>) -> Cfg {
             rng.shuffle(&mut v);
             v
         }
+        // fall-through focus: 1-3 overrides on the defsrc key of the transparent judged key: one that
+        // keeps the key and only changes the modifiers, one whose output is a key another physical
+        // key can hold down, one with a private output
+        if let Some(ai) = focus {
+            let a = &ALPH[ai];
+            let mp = mod_pool(rng, a);
+            let mut kinds = [0usize, 1, 2];
+            rng.shuffle(&mut kinds);
+            let n = 1 + rng.usize(3);
+            for (j, kind) in kinds.iter().take(n).enumerate() {
+                let m_in = if *kind != 0 && rng.chance(1, 5) { None } else { Some(mp[j]) };
+                let (m_out, k_out) = match kind {
+                    0 => (if rng.chance(1, 4) { None } else { Some(if m_in == Some(a.mods[0]) { a.mods[1] } else { a.mods[0] }) }, a.phys.to_string()),
+                    1 => (if rng.chance(1, 5) { Some(*rng.pick(a.mods)) } else { None }, rng.pick(&FOREIGN).to_string()),
+                    _ => (None, rng.pick(a.ov).to_string()),
+                };
+                ovs.push(Ov { m_in, k_in: a.phys.to_string(), m_out, k_out });
+            }
+        }
         // chained overrides: the output of one is the input of the next, with different modifiers
         if rng.chance(2, 5) {
             // mostly on two keys that one cell lists (in either order), so that the cell can put the
@@ -466,8 +569,24 @@ fn make_cfg(rng: &mut Rng, systematic: Option<usize>) -> Cfg {
                 3 | 4 => Some(*rng.pick(a.mods)),
                 _ => Some(CTX_MOD),
             };
-            let o = if rng.chance(1, 3) { pick_in(rng, ai, &listed_all, &[&k]).unwrap_or_else(|| a.ov[0].to_string()) } else { rng.pick(a.ov).to_string() };
-            let m_out = if rng.chance(1, 3) { Some(*rng.pick(a.mods)) } else { None };
+            // output key: another letter of the alphabet (1/3), the input key itself with other
+            // modifiers (1/12), a key that a context key holds down by itself (1/6), a private key
+            let mut m_in = m_in;
+            let mut m_out = if rng.chance(1, 3) { Some(*rng.pick(a.mods)) } else { None };
+            let o = match rng.usize(12) {
+                0..=3 => pick_in(rng, ai, &listed_all, &[&k]).unwrap_or_else(|| a.ov[0].to_string()),
+                4 => {
+                    if m_in.is_none() {
+                        m_in = Some(*rng.pick(a.mods));
+                    }
+                    if m_out == m_in {
+                        m_out = if rng.coin() { None } else { Some(if m_in == Some(a.mods[0]) { a.mods[1] } else { a.mods[0] }) };
+                    }
+                    k.clone()
+                }
+                5 | 6 => rng.pick(&FOREIGN).to_string(),
+                _ => rng.pick(a.ov).to_string(),
+            };
             ovs.push(Ov { m_in, k_in: k, m_out, k_out: o });
         }
         // one override per input (modifier, key)
@@ -494,6 +613,9 @@ fn make_cfg(rng: &mut Rng, systematic: Option<usize>) -> Cfg {
     let is_letter = |k: &str| ALPH.iter().any(|a| a.letters.contains(&k));
     let ov_letter_out = ovs.iter().any(|o| is_letter(&o.k_out));
     let ov_ctx_mod = ovs.iter().any(|o| o.m_in == Some(CTX_MOD));
+    let ov_same_key = ovs.iter().any(|o| o.k_in == o.k_out);
+    let ov_foreign_out = ovs.iter().any(|o| FOREIGN.contains(&o.k_out.as_str()));
+    // (the focus survives only if an override on the defsrc key survived the dedup - it always does)
     // (recomputed after the dedup: a chain needs both links)
     let ov_chain = ov_chain && ovs.iter().any(|o1| ovs.iter().any(|o2| o1 != o2 && o1.k_out == o2.k_in && o1.m_in != o2.m_in));
     for row in cells.iter_mut() {
@@ -566,21 +688,25 @@ fn make_cfg(rng: &mut Rng, systematic: Option<usize>) -> Cfg {
             mod_names.insert(code_name(osc(m)));
         }
     }
-    // chord outputs belong to both participants (v1: kanata lists every action of a chord group
-    // for every key of the group, so there they belong to all three)
-    for (p, pool) in CHORD_POOL.iter().enumerate() {
-        for k in pool {
-            for i in 0..3 {
-                if chords_v1 || i == p || i == p + 1 {
-                    alph_names[i].insert(code_name(osc(k)));
-                }
-                if i == p || i == p + 1 {
-                    alph_own[i].insert(code_name(osc(k)));
-                }
+    // chord outputs belong to the participants (v1: for the "alphabet clean at press" test they count
+    // for all three keys of the group, as before the repair of the chord-group listing)
+    for (p, k) in CHORD_POOL_V1.iter().enumerate() {
+        for i in 0..3 {
+            if chords_v1 || i == p || i == p + 1 {
+                alph_names[i].insert(code_name(osc(k)));
+            }
+            if i == p || i == p + 1 {
+                alph_own[i].insert(code_name(osc(k)));
             }
         }
     }
-    Cfg { text, n_layers, cells, has_overrides, override_inputs, ovs, ov_chain, ov_letter_out, ov_ctx_mod, chords_v1, chords_v2, ov_out_mods, ov_release: has_overrides && ov_release, t, seq_mode, alph_own, alph_names, mod_names }
+    for (keys, o) in V2_SETS.iter() {
+        for i in keys.iter() {
+            alph_names[*i].insert(code_name(osc(o)));
+            alph_own[*i].insert(code_name(osc(o)));
+        }
+    }
+    Cfg { text, v2, focus, ov_same_key, ov_foreign_out, n_layers, cells, has_overrides, override_inputs, ovs, ov_chain, ov_letter_out, ov_ctx_mod, chords_v1, chords_v2, ov_out_mods, ov_release: has_overrides && ov_release, t, seq_mode, alph_own, alph_names, mod_names }
 }
 
 // ------------------------------------------------------------------------------------------------
@@ -644,6 +770,8 @@ struct Window<'a> {
     unmod_pressed: bool,
     /// some key was pressed while kanata was in sequence mode (its press may have been withheld)
     pressed_in_seq: bool,
+    /// the other key x is physically down
+    x_down: bool,
 }
 
 impl<'a> Window<'a> {
@@ -701,6 +829,31 @@ fn do_repeat(out: &mut CaseOut, w: &mut Window, code: u16, hostile: bool) {
     let layers_now = (w.held_layers.clone(), w.base);
     let cell = held.as_ref().map(|h| w.effective_cell(h.ki, &layers_now).clone());
     let shown: Vec<String> = outs.iter().map(|o| o.short()).collect();
+    // ---- the defsrc fallback with overrides on the defsrc key (structural, from the OS model and the
+    // configuration): situations in which more than one key could be picked for the repeat
+    if let (Some(h), Some(c)) = (held.as_ref(), cell.as_ref()) {
+        let phys = ALPH[h.ki].phys;
+        if c.transparent && down_before.contains(&code_name(osc(phys))) && !(in_seq && w.cfg.seq_mode != "visible-backspaced") {
+            let mut other = false;
+            let mut same = false;
+            for ov in w.cfg.ovs.iter().filter(|ov| ov.k_in == phys) {
+                if ov.k_out == phys {
+                    same = true;
+                } else if down_before.contains(&code_name(osc(&ov.k_out))) {
+                    other = true;
+                }
+            }
+            if other {
+                out.inc("repeats_of_fallthrough_key_down_whose_override_output_is_held_by_another_key");
+            }
+            if same {
+                out.inc("repeats_of_fallthrough_key_down_with_override_that_only_changes_modifiers");
+            }
+            if (other || same) && outs.len() == 1 {
+                out.inc("repeats_of_fallthrough_override_input_forwarded_exactly_once");
+            }
+        }
+    }
     // ---- safety
     if outs.len() > 1 {
         out.violate("C14:more-than-one-output", format!("a repeat of {} produced {} outputs", code_name(code), outs.len()), witness(w.cfg, &w.d, json!(shown), json!("at most one repeat"), json!(null)));
@@ -720,6 +873,12 @@ fn do_repeat(out: &mut CaseOut, w: &mut Window, code: u16, hostile: bool) {
             } else if w.pressed_in_seq && w.cfg.seq_mode != "visible-backspaced" {
                 // a key pressed while a hidden sequence was being typed never reached the OS
                 "C14:repeat-of-up-key:press-hidden-by-sequence-mode"
+            } else if w.cfg.seq_mode == "visible-backspaced" && w.seq_started && !in_seq && ["lctl", "rctl", "lalt", "ralt", "lmet", "rmet"].iter().any(|m| code_name(osc(m)) == o.name) && w.d.sim.trace[..n0].iter().rev().take_while(|t| t.at == w.d.sim.now).any(|t| t.in_tick && t.kind == OutKind::Up && !t.redundant && t.name == o.name) {
+                // (known class) a visible-backspaced sequence completed in the tick just before this
+                // Repeat event: kanata released ctrl/alt/meta at the OS for the backspaces in that tick
+                // (the forwarded key is one of them, its release is in that tick's output) but still has
+                // it in its key list until the next tick
+                "C14:repeat-of-up-key:modifier-released-by-visible-backspaced-completion-in-the-same-tick"
             } else if any_unmod_held && w.cfg.ovs.iter().any(|ov| code_name(osc(&ov.k_in)) == o.name || code_name(osc(&ov.k_out)) == o.name) {
                 // (known class: the key that is up is the input or the output key of an override)
                 "C14:repeat-of-up-key:unmod+override"
@@ -769,9 +928,40 @@ fn do_repeat(out: &mut CaseOut, w: &mut Window, code: u16, hostile: bool) {
         return;
     }
     out.inc("completeness_judged");
-    if CHORD_POOL.iter().flatten().any(|k| attributed.contains(&code_name(osc(k)))) {
-        out.inc(if w.cfg.chords_v2 { "judged_with_v2_chord_output_down" } else { "judged_with_v1_chord_output_down" });
+    if CHORD_POOL_V1.iter().any(|k| attributed.contains(&code_name(osc(k)))) {
+        out.inc("judged_with_v1_chord_output_down");
     }
+    // chords v2: which chord of the key is held, and what precedes it in the definition order
+    let mut v2_down = false;
+    for (ci, c) in w.cfg.v2.iter().enumerate() {
+        if !c.keys.contains(&h.ki) || !attributed.contains(&code_name(osc(c.out))) {
+            continue;
+        }
+        v2_down = true;
+        out.inc("judged_with_v2_chord_output_down");
+        if c.keys.len() == 3 {
+            out.inc("judged_with_v2_three_key_chord_output_down");
+        }
+        if w.cfg.v2.iter().filter(|e| e.keys.contains(&h.ki)).count() >= 2 {
+            out.inc("judged_with_v2_chord_output_down_key_in_several_chords");
+        }
+        let earlier_disabled_on = |l: usize| w.cfg.v2[..ci].iter().any(|e| e.keys.contains(&h.ki) && e.disabled.contains(&l));
+        let top = layers_now.0.last().copied().unwrap_or(layers_now.1);
+        if earlier_disabled_on(top) {
+            out.inc("judged_with_v2_chord_output_down_after_chord_of_key_disabled_on_active_layer");
+        }
+        if layers_now.0.iter().all(|l| earlier_disabled_on(*l)) && earlier_disabled_on(layers_now.1) {
+            out.inc("judged_with_v2_chord_output_down_after_chord_of_key_disabled_on_every_consulted_layer");
+        }
+        let pressed_last = w.held.last().map(|l| l.code) == Some(code) && w.held.len() >= 2;
+        if pressed_last {
+            out.inc("judged_with_v2_chord_output_down_repeated_key_pressed_last");
+        }
+        if pressed_last && layers_now.0.iter().all(|l| earlier_disabled_on(*l)) && earlier_disabled_on(layers_now.1) {
+            out.inc("judged_with_v2_chord_output_down_after_disabled_chord_of_key_and_key_pressed_last");
+        }
+    }
+    let only_v2 = v2_down && attributed.iter().all(|k| w.cfg.v2.iter().any(|c| code_name(osc(c.out)) == *k) || w.cfg.mod_names.contains(k));
     for f in &cell.forms {
         out.inc(&format!("judged_form_{f}"));
     }
@@ -818,7 +1008,7 @@ fn do_repeat(out: &mut CaseOut, w: &mut Window, code: u16, hostile: bool) {
             // (the known class is only: the defsrc key itself is the input of an override and nothing
             // but outputs of overrides on it is attributed)
             let phys = ALPH[h.ki].phys;
-            let phys_ov_outs: BTreeSet<String> = w.cfg.ovs.iter().filter(|o| o.k_in == phys).map(|o| code_name(osc(&o.k_out))).collect();
+            let phys_ov_outs: BTreeSet<String> = w.cfg.ovs.iter().filter(|o| o.k_in == phys && o.k_out != phys).map(|o| code_name(osc(&o.k_out))).collect();
             let sig = if cell.transparent && !phys_ov_outs.is_empty() && attributed.iter().all(|k| phys_ov_outs.contains(k) || w.cfg.mod_names.contains(k)) && attributed.iter().any(|k| phys_ov_outs.contains(k)) {
                 "C14:repeat-dropped:defsrc-fallback+override"
             } else if cell.transparent && w.unmod_pressed && attributed.contains(&code_name(osc(phys))) && w.cfg.ovs.iter().any(|o| o.k_in == phys && o.m_in.is_some()) {
@@ -826,6 +1016,8 @@ fn do_repeat(out: &mut CaseOut, w: &mut Window, code: u16, hostile: bool) {
                 // input modifier of an override on the defsrc key at the OS, the repeat path still
                 // applies that override)
                 "C14:repeat-dropped:defsrc-fallback+override-modifier-stripped-by-unmod"
+            } else if only_v2 {
+                "C14:repeat-dropped:chords-v2-output-down"
             } else if via_chain && only_via_override {
                 "C14:repeat-dropped:chained-override-output-down"
             } else if via_override && only_via_override {
@@ -836,10 +1028,27 @@ fn do_repeat(out: &mut CaseOut, w: &mut Window, code: u16, hostile: bool) {
             out.violate(sig, format!("{} holds {:?} down through {} but its repeat produced nothing", code_name(code), attributed, cell.forms.iter().copied().collect::<Vec<_>>().join("/")), witness(w.cfg, &w.d, json!(shown), exp, extra));
         }
         Some(o) => {
-            if !attributed.contains(&o.name) {
+            // overrides on keys of this alphabet whose output is the forwarded key and which another
+            // physical key can hold down as well
+            let foreign_ovs: Vec<&Ov> = w.cfg.ovs.iter().filter(|ov| FOREIGN.contains(&ov.k_out.as_str()) && code_name(osc(&ov.k_out)) == o.name && ALPH[h.ki].letters.contains(&ov.k_in.as_str())).collect();
+            if !attributed.contains(&o.name) && !foreign_ovs.is_empty() && !foreign_ovs.iter().all(|ov| down_before.contains(&code_name(osc(&ov.k_in)))) {
+                // an active override replaces its input key at the OS; the input key of one of them is
+                // not down, so that override may be what holds the forwarded key: not decidable from the
+                // OS model
+                out.inc("not_judged_forwarded_key_may_be_output_of_active_override");
+            } else if !attributed.contains(&o.name) {
                 // chords v1: kanata lists the actions of the whole chord group for each of its keys
                 let other_held_alph = (0..3).any(|x| x != h.ki && w.cfg.alph_names[x].contains(&o.name));
-                let sig = if cell.forms.contains("chord-v1") && other_held_alph { "C14:repeat-of-foreign-key:chords-v1-group-shares-outputs" } else { "C14:repeat-of-foreign-key" };
+                let sig = if cell.forms.contains("chord-v1") && other_held_alph {
+                    "C14:repeat-of-foreign-key:chords-v1-group-shares-outputs"
+                } else if !cell.transparent && foreign_ovs.iter().any(|ov| cell.listed.contains(&ov.k_in)) {
+                    // (known class) resolved through a layer table: the cell lists the input key of an
+                    // override, the input key of every such override is down at the OS (so none of
+                    // them is active) and the forwarded key is their output, held by another physical key
+                    "C14:repeat-of-foreign-key:inactive-override-output-held-by-other-key"
+                } else {
+                    "C14:repeat-of-foreign-key"
+                };
                 out.violate(sig, format!("{} holds {:?} down but the repeat was for {}", code_name(code), attributed, o.name), witness(w.cfg, &w.d, json!(shown), exp, extra));
             } else if !cell.mod_as_key && !cell.dup_keys && !cell.forms.contains("chord-v1") && !cell.forms.contains("multi") && !cell.forms.contains("switch-fallthrough") && !w.cfg.ov_out_mods && !any_mod_as_key(w.cfg, h.ki) && w.cfg.mod_names.contains(&o.name) && attributed.iter().any(|k| !w.cfg.mod_names.contains(k)) {
                 out.violate("C14:repeat-of-modifier-instead-of-key", format!("{} holds {:?} down (modifiers only as output-chord prefixes) but the repeat was for the modifier {}", code_name(code), attributed, o.name), witness(w.cfg, &w.d, json!(shown), exp, extra));
@@ -873,7 +1082,7 @@ fn has_dup_keys(text: &str, phys: &str, ov: &[(String, String)]) -> bool {
         seen.push(k.to_string());
         // kanata lists the override outputs of a key right after it
         for (i, o) in ov {
-            if i == k {
+            if i == k && o != k {
                 if seen.iter().any(|x| x == o) {
                     return true;
                 }
@@ -1030,7 +1239,7 @@ fn shape(t: &str) -> String {
 
 fn run_window(out: &mut CaseOut, cfg: &Cfg, rng: &mut Rng, wi: usize) -> Option<()> {
     let sim = Sim::new(&cfg.text).ok()?;
-    let mut w = Window { cfg, d: Drv { sim, hist: vec![] }, held_layers: vec![], base: 0, held: vec![], ctx_down: vec![], seq_started: false, unmod_pressed: false, pressed_in_seq: false };
+    let mut w = Window { cfg, d: Drv { sim, hist: vec![] }, held_layers: vec![], base: 0, held: vec![], ctx_down: vec![], seq_started: false, unmod_pressed: false, pressed_in_seq: false, x_down: false };
     let settle = (4 * cfg.t + 140) as u64;
     // ---- context
     if cfg.n_layers > 1 && rng.chance(1, 3) {
@@ -1076,7 +1285,6 @@ fn run_window(out: &mut CaseOut, cfg: &Cfg, rng: &mut Rng, wi: usize) -> Option<
     // ---- events
     let n_events = 4 + rng.usize(14);
     let x = osc(CTX_X);
-    let mut x_down = false;
     let mut last_event_tick = w.d.sim.now;
     for _ in 0..n_events {
         let r = rng.usize(100);
@@ -1121,7 +1329,7 @@ fn run_window(out: &mut CaseOut, cfg: &Cfg, rng: &mut Rng, wi: usize) -> Option<
             do_repeat(out, &mut w, c, false);
         } else if r < 72 {
             // the other key: triggers tap-hold-press / release-keys decisions, clears output chords
-            if x_down {
+            if w.x_down {
                 w.d.release(x);
             } else {
                 if w.d.sim.k.sequence_state.is_active() {
@@ -1129,7 +1337,7 @@ fn run_window(out: &mut CaseOut, cfg: &Cfg, rng: &mut Rng, wi: usize) -> Option<
                 }
                 w.d.press(x);
             }
-            x_down = !x_down;
+            w.x_down = !w.x_down;
             last_event_tick = w.d.sim.now;
         } else if r < 78 && !w.held.is_empty() {
             let i = rng.usize(w.held.len());
@@ -1160,8 +1368,9 @@ fn run_window(out: &mut CaseOut, cfg: &Cfg, rng: &mut Rng, wi: usize) -> Option<
     }
     let _ = last_event_tick;
     // ---- wind down
-    if x_down {
+    if w.x_down {
         w.d.release(x);
+        w.x_down = false;
     }
     let held: Vec<Held> = w.held.drain(..).collect();
     for h in held {
@@ -1262,6 +1471,24 @@ impl Check for C14Check {
         if cfg.ov_ctx_mod {
             out.inc("configs_with_context_modifier_override");
         }
+        if cfg.focus.is_some() {
+            out.inc("configs_with_fallthrough_key_as_override_input");
+        }
+        if cfg.ov_same_key {
+            out.inc("configs_with_override_that_only_changes_modifiers");
+        }
+        if cfg.ov_foreign_out {
+            out.inc("configs_with_override_output_that_another_key_can_hold");
+        }
+        if cfg.v2.iter().any(|c| !c.disabled.is_empty()) {
+            out.inc("configs_with_chords_v2_disabled_layers");
+        }
+        if (0..3).any(|ki| {
+            let mine: Vec<&V2Chord> = cfg.v2.iter().filter(|c| c.keys.contains(&ki)).collect();
+            mine.len() >= 2 && (0..cfg.n_layers).any(|l| mine[0].disabled.contains(&l) && mine[1..].iter().any(|c| !c.disabled.contains(&l)))
+        }) {
+            out.inc("configs_with_chords_v2_key_whose_first_chord_is_disabled_where_a_later_one_is_not");
+        }
         out.inc(&format!("configs_with_{}_layers", cfg.n_layers));
         out.inc(&format!("seq_mode_{}", cfg.seq_mode));
         let mut hrng = Rng::for_case(ctx.seed, "C14", "hist", idx);
@@ -1282,12 +1509,14 @@ impl Check for C14Check {
         out
     }
     fn rule(&self) -> String {
-        "case = one configuration with three judged physical keys (each with a private output alphabet of 6 letters, 2 modifiers and 2 override outputs) whose cells on 1-3 layers are random key-producing actions nested to depth 3 (plain key, modifier key, output chord, multi, 7 tap-hold variants, tap-dance lazy/eager, 5 one-shot variants, fork, switch with break/fallthrough and key/input/layer conditions, unmod, unshift, use-defsrc, transparent, chords v1, chords v2), optional defoverrides inside the alphabets (1-5 entries; input key drawn 3:1 from the keys the judged cells list; output a private override key or, 1 in 3, another letter of the alphabet; input modifier none / one of the alphabet's two / the context modifier lmet; 2 of 5 override configurations contain a chain K1->K2, K2->K3 [, K3->K4] with pairwise different input modifiers, K1 and K2 3:1 two keys that one judged cell lists, in either order, the second link on lmet half of the time), context keys (z, x, lmet, two layer-while-held keys, layer-switch keys, sequence leader with three input modes), x 6 (quick) / 10 (thorough) history windows: context set up, then 4-17 random steps (press a judged key from a settled state or immediately after another, repeats of held judged keys singly and in bursts, repeats of context keys, the other key x, releases followed by a stray repeat, repeats of keys that are not held, waits of 1 tick / below / at / beyond the timeouts). Safety is judged at every repeat, completeness when the precondition in the module header holds. Non-trivial = a repeat that was judged for completeness; distinct = (action shape of the effective cell, layer context, overrides).".into()
+        "case = one configuration with three judged physical keys (each with a private output alphabet of 6 letters, 2 modifiers and 2 override outputs) whose cells on 1-3 layers are random key-producing actions nested to depth 3 (plain key, modifier key, output chord, multi, 7 tap-hold variants, tap-dance lazy/eager, 5 one-shot variants, fork, switch with break/fallthrough and key/input/layer conditions, unmod, unshift, use-defsrc, transparent, chords v1, chords v2), optional defoverrides inside the alphabets (1-5 entries; input key drawn 3:1 from the keys the judged cells list; output a private override key or, 1 in 3, another letter of the alphabet; input modifier none / one of the alphabet's two / the context modifier lmet; 2 of 5 override configurations contain a chain K1->K2, K2->K3 [, K3->K4] with pairwise different input modifiers, K1 and K2 3:1 two keys that one judged cell lists, in either order, the second link on lmet half of the time; 1 of 5 override configurations: one judged key transparent on the base layer / 2 of 3 on every layer with 1-3 overrides on its defsrc key [modifier-only change, foreign output z|x, private output]; every random override 1 in 12 keeps its key and only changes modifiers, 1 in 6 outputs z or x, which the context keys z and x hold down by themselves), chords v2 = 2-4 of the chords (q w) (w e) (q e) (q w e) in random definition order, each with its own output key and release behaviour, 3 of 4 configurations with a random disabled-layers list per chord (each layer 1 in 3), context keys (z, x, lmet, two layer-while-held keys, layer-switch keys, sequence leader with three input modes), x 6 (quick) / 10 (thorough) history windows: context set up, then 4-17 random steps (press a judged key from a settled state or immediately after another, repeats of held judged keys singly and in bursts, repeats of context keys, the other key x, releases followed by a stray repeat, repeats of keys that are not held, waits of 1 tick / below / at / beyond the timeouts). Safety (at most one output on the raw output stream of the Repeat event, a repeat, of a key that is down) is judged at every repeat, completeness when the precondition in the module header holds. Non-trivial = a repeat that was judged for completeness; distinct = (action shape of the effective cell, layer context, overrides).".into()
     }
     fn assumptions(&self) -> Vec<String> {
         vec![
             "attribution uses disjoint output alphabets per judged key; fork/switch conditions only use context keys outside these alphabets; overrides map inside one alphabet (input and output non-modifier key and, unless it is the context modifier lmet, the input modifier)".into(),
             "overrides are applied once, not transitively (observed on the tree and not contradicted by the guide): nothing is assumed about WHICH key an override chain puts down - completeness only demands a repeat for whatever key of the alphabet the OS model shows down and attributable to the press; the chain counters are structural (the cell lists K1 and K2, overrides K1->K2 and K2->K3 with different input modifiers exist, K3 is not listed by the cell and is down)".into(),
+            "an override output outside the alphabets (z, x) is never attributed to a judged key; a repeat forwarded for it is judged foreign only if the OS model shows the input key of every override that could produce it down (an active override replaces its input key at the OS), otherwise the forwarded key may be the output of an active override and the repeat is not judged (counted)".into(),
+            "chords v2 with disabled-layers: nothing is assumed about which chord fires on which layer; completeness demands a repeat for whatever chord output of the key's chords the OS model shows down and attributable to the press. The counters that a chord defined after a disabled chord of the same key was held are structural (definition order, disabled-layers lists, the layers the lookup consults = held layers and base layer)".into(),
             "override-release-on-activation is not generated (its documented effect ends the output one tick after activation)".into(),
             "the judged keys' own actions contain no layer actions, so the layer stack between press and repeat changes only through the context keys, which are not touched inside a window".into(),
             "completeness is not judged while kanata is in sequence mode, for keys pressed while a decision was pending or a one-shot was active, or when nothing of the key's alphabet is down".into(),
@@ -1335,6 +1564,20 @@ impl Check for C14Check {
             ("configs_with_chords_v2", 2_000 * s),
             ("judged_with_v2_chord_output_down", 1_500 * s),
             ("judged_with_v1_chord_output_down", 200 * s),
+            ("configs_with_chords_v2_disabled_layers", 1_500 * s),
+            ("configs_with_chords_v2_key_whose_first_chord_is_disabled_where_a_later_one_is_not", 900 * s),
+            ("judged_with_v2_chord_output_down_key_in_several_chords", 1_500 * s),
+            ("judged_with_v2_three_key_chord_output_down", 250 * s),
+            ("judged_with_v2_chord_output_down_repeated_key_pressed_last", 1_000 * s),
+            ("judged_with_v2_chord_output_down_after_chord_of_key_disabled_on_active_layer", 250 * s),
+            ("judged_with_v2_chord_output_down_after_chord_of_key_disabled_on_every_consulted_layer", 200 * s),
+            ("judged_with_v2_chord_output_down_after_disabled_chord_of_key_and_key_pressed_last", 100 * s),
+            ("configs_with_fallthrough_key_as_override_input", 1_000 * s),
+            ("configs_with_override_that_only_changes_modifiers", 1_200 * s),
+            ("configs_with_override_output_that_another_key_can_hold", 1_800 * s),
+            ("repeats_of_fallthrough_key_down_whose_override_output_is_held_by_another_key", 250 * s),
+            ("repeats_of_fallthrough_key_down_with_override_that_only_changes_modifiers", 1_000 * s),
+            ("repeats_of_fallthrough_override_input_forwarded_exactly_once", 1_200 * s),
             ("minimal_unmod_override_witness_runs", 1),
         ]
     }
